@@ -12,6 +12,7 @@
 package main
 
 import (
+	"context"
 	"crypto/ecdsa"
 	"crypto/elliptic"
 	"crypto/rand"
@@ -20,6 +21,7 @@ import (
 	"crypto/x509/pkix"
 	"encoding/binary"
 	"fmt"
+	"io"
 	"math/big"
 	"strings"
 	"time"
@@ -577,6 +579,106 @@ func (e *env) ackCase(rcv uint32, frameLen int) {
 	e.runCase(sc)
 }
 
+// gateCase: a real client channel with its dispatcher running. The (hostile) server
+// answers the first ordinary request with a message whose body is an
+// OpenSecureChannelResponse, the following ones properly, and never answers an
+// OpenSecureChannel request. Observed: the gate (rcvLocker) after the hostile
+// response, whether request 2 gets its response, the gate after an open() has
+// returned (Renew, which times out), whether request 3 gets its response.
+func (e *env) gateCase() {
+	cfg := h.RecvNoneConfig()
+	cfg.RequestTimeout = 2 * time.Second
+	rc, err := h.OpenRecvChannel(cfg, h.RecvAck(65535, 65535, 512, 2*1024*1024), false, 11, 22, 1, nil, nil)
+	if err != nil {
+		e.r.InfraError = "gate: " + err.Error()
+		return
+	}
+	defer rc.Close()
+	rc.SC.VerifSetRequestID(100)
+	rc.SC.VerifStartDispatcher()
+	respHdr := func(handle uint32) *ua.ResponseHeader {
+		return &ua.ResponseHeader{Timestamp: time.Unix(1700000000, 0).UTC(), RequestHandle: handle, ServiceDiagnostics: &ua.DiagnosticInfo{}, StringTable: []string{}, AdditionalHeader: ua.NewExtensionObject(nil)}
+	}
+	enc := func(v interface{}) []byte {
+		tb, _ := ua.Encode(ua.NewFourByteExpandedNodeID(0, ua.ServiceTypeID(v)))
+		bb, _ := ua.Encode(v)
+		return append(tb, bb...)
+	}
+	// the server side
+	go func() {
+		n, seq := 0, uint32(1)
+		hdr := make([]byte, 8)
+		for {
+			rc.Peer.SetReadDeadline(time.Now().Add(30 * time.Second))
+			if _, err := io.ReadFull(rc.Peer, hdr); err != nil {
+				return
+			}
+			rest := make([]byte, binary.LittleEndian.Uint32(hdr[4:])-8)
+			if _, err := io.ReadFull(rc.Peer, rest); err != nil {
+				return
+			}
+			if string(hdr[:3]) != "MSG" || len(rest) < 16 {
+				continue // an OpenSecureChannel request: never answered
+			}
+			req := binary.LittleEndian.Uint32(rest[12:16])
+			n++
+			var body []byte
+			if n == 1 {
+				body = enc(&ua.OpenSecureChannelResponse{ResponseHeader: respHdr(req), SecurityToken: &ua.ChannelSecurityToken{ChannelID: 11, TokenID: 23, CreatedAt: time.Unix(1700000000, 0).UTC(), RevisedLifetime: 3600000}, ServerNonce: []byte{}})
+			} else {
+				body = enc(&ua.ReadResponse{ResponseHeader: respHdr(req), Results: []*ua.DataValue{{EncodingMask: ua.DataValueValue, Value: ua.MustVariant(int32(n))}}})
+			}
+			rc.Peer.Write(h.RecvRefChunk{Type: 'F', ChannelID: 11, TokenID: 22, Seq: seq, Req: req, Body: body}.Raw())
+			seq++
+		}
+	}()
+	send := func() string {
+		got := "no-response"
+		ctx, cancel := context.WithTimeout(context.Background(), 10*time.Second)
+		defer cancel()
+		err := rc.SC.SendRequestWithTimeout(ctx, &ua.ReadRequest{NodesToRead: []*ua.ReadValueID{{NodeID: ua.NewNumericNodeID(0, 2258), AttributeID: ua.AttributeIDValue}}}, nil, 2*time.Second, func(v ua.Response) error {
+			got = fmt.Sprintf("%T", v)
+			return nil
+		})
+		if err != nil {
+			return got + "/" + h.RecvErrClass(err)
+		}
+		return got + "/ok"
+	}
+	b := func(x bool) int { return b2i(x) }
+	r1 := send()
+	time.Sleep(100 * time.Millisecond)
+	l1 := rc.SC.VerifRcvLocked()
+	r2 := send()
+	l2 := rc.SC.VerifRcvLocked()
+	ctx, cancel := context.WithTimeout(context.Background(), 15*time.Second)
+	rerr := rc.SC.Renew(ctx) // an open(): sends an OPN request nobody answers, returns by its timeout, unlocks the gate
+	cancel()
+	time.Sleep(200 * time.Millisecond)
+	l3 := rc.SC.VerifRcvLocked()
+	r3 := send()
+	impl := fmt.Sprintf("req1=%s locked=%d req2=%s locked=%d renew=%s locked=%d req3=%s", r1, b(l1), r2, b(l2), h.RecvErrClass(rerr), b(l3), r3)
+	line := "gate: request 101 answered with an OpenSecureChannelResponse body, request 102 answered properly, Renew (never answered), request 103 answered properly"
+	e.r.Count(line, true)
+	e.r.Hit("gate:hostile-opn-response")
+	e.r.Notes = append(e.r.Notes, "receive gate: "+impl)
+	timeoutCls := fmt.Sprintf("status:%d", uint32(ua.StatusBadTimeout))
+	want := fmt.Sprintf("req1=*ua.OpenSecureChannelResponse/ok locked=1 req2=no-response/%s locked=1 renew=%s locked=0 req3=*ua.ReadResponse/ok", timeoutCls, timeoutCls)
+	if e.d != nil {
+		// the model: after the hostile response the gate is locked and response 2 stays queued;
+		// after open() has returned response 3 is delivered (response 2 lost its handler by the timeout)
+		m1 := e.d.Ask("gate r:101 a:101:1 d r:102 a:102:0 d d t:102")
+		m2 := e.d.Ask("gate r:101 a:101:1 d r:102 a:102:0 d d t:102 o d r:103 a:103:0 d")
+		if m1 != "locked=1 delivered=101 queued=1" || m2 != "locked=0 delivered=101,103 queued=0" || impl != want {
+			e.r.Disagree(line, m1+" ; "+m2+" => "+want, impl)
+		}
+	}
+	// oracle of C13 ("never blocks for ever"): once an open() has returned the channel must work again
+	if l3 || !strings.HasSuffix(r3, "/ok") {
+		e.fail(line, "", "the receive gate stays locked after open() has returned: "+impl)
+	}
+}
+
 func (e *env) replay(line string) {
 	// a case text: "<setup> uri=<short> mode=<m> raw <rcvBuf> <maxcc> <maxms> <secure> <opening> <chans> <frames…>"
 	f := strings.Fields(line)
@@ -663,6 +765,7 @@ func main() {
 	}
 	e.ackCase(4294967295, 8)
 	e.ackCase(1<<31, 8)
+	e.gateCase()
 	// floods
 	e.flood("open-server", o.N(8000, 20000))
 	e.flood("open", o.N(4000, 20000))
@@ -674,7 +777,7 @@ func main() {
 	}
 	for _, b := range []string{"impl:err:decodeChunk", "impl:err:noOpening", "impl:err:cert", "impl:err:notRsa", "impl:err:policy", "impl:err:noInstance",
 		"impl:err:security", "impl:err:seqHeader", "impl:panic:conn", "impl:panic:hdr", "impl:result:nil", "impl:result:status", "impl:result:toomany", "impl:result:toolarge",
-		"setup:fresh-server", "setup:fresh-client", "setup:open-server", "setup:open", "setup:handshake-client", "mode:1", "mode:2", "mode:3"} {
+		"setup:fresh-server", "setup:fresh-client", "setup:open-server", "setup:open", "setup:handshake-client", "gate:hostile-opn-response", "mode:1", "mode:2", "mode:3"} {
 		if r.Distribution[b] == 0 {
 			r.Unreached = append(r.Unreached, b)
 		}
